@@ -301,6 +301,13 @@ fn dly() {{ let us = DELAY_US.load(SeqCst); if us > 0 {{ std::thread::sleep(std:
     {orig_ret}
 }}
 
+// a second original of the same type: takes a fake from a SECOND expansion of the same arm
+#[inline(never)]
+{quals} fn orig2(a: i64, out: &mut i64){ret_decl} {{
+    *out = std::hint::black_box(-3);
+    {orig_ret}
+}}
+
 // a sibling original that differs from `orig` only in ABI: the arm's fake must be refused on it
 #[inline(never)]
 {other_quals} fn orig_other_abi(a: i64, out: &mut i64){ret_decl} {{
@@ -317,6 +324,10 @@ fn control(a: i64, out: &mut i64) -> i64 {{
 
 // the arm's own matcher is the template of a well-typed use
 fn make_fake() -> (FuncPtr, CallCountVerifier) {{
+    injectorpp::fake!({invocation})
+}}
+// the same arm expanded a second time, at another place in the source: a fake of its own
+fn make_fake2() -> (FuncPtr, CallCountVerifier) {{
     injectorpp::fake!({invocation})
 }}
 
@@ -347,11 +358,18 @@ fn real_main() {{
     // fake! expression again (make_fake)
     loop {{
         let first = match lines.next() {{ Some(Ok(l)) => l, _ => break }};
-        let times: usize = match first.trim().parse() {{ Ok(t) => t, Err(_) => break }};
+        // "<times>" or "<times>+<k2>": with `+`, a fake from a second expansion of the arm is installed
+        // on `orig2` through the same injector and receives k2 matching calls after the script's calls
+        let mut parts = first.trim().splitn(2, '+');
+        let times: usize = match parts.next().unwrap_or("").trim().parse() {{ Ok(t) => t, Err(_) => break }};
+        let second: Option<usize> = parts.next().and_then(|x| x.trim().parse().ok());
         TIMES.store(times, SeqCst);
         let r = std::panic::catch_unwind(|| {{
             let mut inj = InjectorPP::new();
             inj.when_called(injectorpp::func!(orig, {quals} fn({param_tys}){ret_decl})).will_execute(make_fake());
+            if second.is_some() {{
+                inj.when_called(injectorpp::func!(orig2, {quals} fn({param_tys}){ret_decl})).will_execute(make_fake2());
+            }}
             inj
         }});
         let inj = match r {{
@@ -362,9 +380,12 @@ fn real_main() {{
         loop {{
             let line = match lines.next() {{ Some(Ok(l)) => l, _ => break }};
             if line.starts_with("T ") {{
-                // "T <threads> <k> <delay_us>": k matching calls split over the threads, released together
+                // "T <threads> <k> <delay_us> [j]": k matching calls (and first j calls whose arguments
+                // fail `when`) split over the threads, released together
                 let p: Vec<u64> = line[2..].split_whitespace().filter_map(|x| x.parse().ok()).collect();
                 let (nt, k, us) = (p[0].max(1) as usize, p[1] as usize, p[2]);
+                let j = p.get(3).copied().unwrap_or(0) as usize;
+                let k = k + j;
                 WHEN_MIN.store(0, SeqCst);
                 ASSIGN_K.store(1, SeqCst);
                 RET_K.store(1, SeqCst);
@@ -379,7 +400,7 @@ fn real_main() {{
                             let (mut ok, mut bad) = (0usize, 0usize);
                             let mut i = t;
                             while i < k {{
-                                let a: i64 = 5 + i as i64;
+                                let a: i64 = if i < j {{ -1000 - i as i64 }} else {{ 5 + i as i64 }};
                                 let mut out: i64 = -99;
                                 let r = std::panic::catch_unwind(std::panic::AssertUnwindSafe(|| {{ {call_expr} }}));
                                 if r.is_ok() {{ ok += 1 }} else {{ bad += 1 }}
@@ -412,6 +433,19 @@ fn real_main() {{
             let val = match r {{ Ok(v) => format!("ok {{}}", v), Err(_) => "panic".to_string() }};
             println!("RESULT {{val}} out {{out}} assign_seq {{}} ret_seq {{}} cond_evals {{}} ret_evals {{}} assign_evals {{}} orig_runs {{}}", ASSIGN_SEQ.load(SeqCst), RET_SEQ.load(SeqCst), COND_EVALS.load(SeqCst) - c0, RET_EVALS.load(SeqCst) - r0, ASSIGN_EVALS.load(SeqCst) - s0, ORIG_RUNS.load(SeqCst) - o0);
         }}
+        if let Some(k2) = second {{
+            WHEN_MIN.store(0, SeqCst);
+            ASSIGN_K.store(1, SeqCst);
+            RET_K.store(1, SeqCst);
+            let (mut ok, mut bad) = (0usize, 0usize);
+            for i in 0..k2 {{
+                let a: i64 = 7 + i as i64;
+                let mut out: i64 = -99;
+                let r = std::panic::catch_unwind(std::panic::AssertUnwindSafe(|| {{ {call2_expr} }}));
+                if r.is_ok() {{ ok += 1 }} else {{ bad += 1 }}
+            }}
+            println!("SECOND ok={{ok}} panic={{bad}}");
+        }}
         println!("EXIT");
         let r = std::panic::catch_unwind(std::panic::AssertUnwindSafe(move || drop(inj)));
         println!("{{}}", if r.is_ok() {{ "DROPPED" }} else {{ "DROP-PANIC" }});
@@ -439,6 +473,7 @@ def render_arm(idx, arm, invocation, opts):
     if unsafe:
         call = "unsafe { " + call + " }"
     call_expr = (call + "; 0i64") if unit else call
+    call2_expr = call_expr.replace("orig(", "orig2(")
     after = "orig(1, &mut out2)"
     if unsafe:
         after = "unsafe { " + after + " }"
@@ -455,7 +490,7 @@ def render_arm(idx, arm, invocation, opts):
         cb.append("    { dly(); RET_SEQ.store(tick(), SeqCst); RET_EVALS.fetch_add(1, SeqCst); a * 2 + RET_K.load(SeqCst) + (*out ^ *out) }")
     else:
         cb.append("    let _ = (a, &out); 0")
-    return ARM_TEMPLATE.format(control_body="\n".join(cb), idx=idx, line=arm["line"], quals=quals, other_quals=other, ret_decl=ret_decl, orig_ret="" if unit else "std::hint::black_box(-7)", invocation=invocation, param_tys=PARAM_TYS, call_expr=call_expr, after_expr=after_expr)
+    return ARM_TEMPLATE.format(control_body="\n".join(cb), idx=idx, line=arm["line"], quals=quals, other_quals=other, ret_decl=ret_decl, orig_ret="" if unit else "std::hint::black_box(-7)", invocation=invocation, param_tys=PARAM_TYS, call_expr=call_expr, call2_expr=call2_expr, after_expr=after_expr)
 
 
 # --------------------------------------------------------------------------------------------
@@ -524,25 +559,26 @@ def write_if_changed(p, s):
 # --------------------------------------------------------------------------------------------
 # reference model + runner for arm scripts
 
-def run_arm(exe, times, calls, timeout=20, more_blocks=(), teardown=False):
+def run_arm(exe, times, calls, timeout=20, more_blocks=(), teardown=False, second=None):
     """one lifetime (times, calls), optionally followed by further lifetimes [(times, calls), ...];
     teardown: everything runs from a destructor while the thread unwinds"""
     inp = ""
-    for (t, cs) in [(times, calls)] + list(more_blocks):
-        inp += f"{t}\n" + "".join(f"{a} {w} {k} {r}\n" for (a, w, k, r) in cs) + "end\n"
+    for bi, (t, cs) in enumerate([(times, calls)] + list(more_blocks)):
+        inp += (f"{t}+{second}\n" if (bi == 0 and second is not None) else f"{t}\n") + "".join(f"{a} {w} {k} {r}\n" for (a, w, k, r) in cs) + "end\n"
     env = dict(os.environ, VGEN_TEARDOWN="1") if teardown else None
     p = subprocess.run([exe], input=inp, stdout=subprocess.PIPE, stderr=subprocess.PIPE, text=True, timeout=timeout, env=env)
     return p.returncode, p.stdout.splitlines(), p.stderr.splitlines()
 
 
-def run_arm_conc(exe, times, threads, k, delay_us, timeout=60):
-    """one lifetime in which k matching calls arrive from `threads` threads released together"""
-    inp = f"{times}\nT {threads} {k} {delay_us}\nend\n"
+def run_arm_conc(exe, times, threads, k, delay_us, timeout=60, j=0):
+    """one lifetime in which k matching calls (and j calls rejected by `when`) arrive from `threads`
+    threads released together"""
+    inp = f"{times}\nT {threads} {k} {delay_us} {j}\nend\n"
     p = subprocess.run([exe], input=inp, stdout=subprocess.PIPE, stderr=subprocess.PIPE, text=True, timeout=timeout)
     return p.returncode, p.stdout.splitlines(), p.stderr.splitlines()
 
 
-def model_conc(opts, times, threads, k, out, err):
+def model_conc(opts, times, threads, k, out, err, j=0):
     """C06 under concurrent callers: exactly min(k, N) calls are admitted, the others panic at the
     call, and scope exit panics iff k != N, naming both numbers"""
     if not out or out[0] != "INSTALLED":
@@ -552,8 +588,8 @@ def model_conc(opts, times, threads, k, out, err):
         return ("crash-under-concurrent-callers", f"no CONC line: stdout {out[-3:]} stderr {err[-3:]}")
     ok, bad = int(m.group(1)), int(m.group(2))
     want_ok = min(k, times)
-    if ok != want_ok or bad != k - want_ok:
-        return ("concurrent-admission-wrong", f"{k} matching calls from {threads} threads against times {times}: {ok} returned normally and {bad} panicked; exactly {want_ok} must return and {k - want_ok} must panic")
+    if ok != want_ok or bad != k - want_ok + j:
+        return ("concurrent-admission-wrong", f"{k} matching calls" + (f" and {j} calls whose arguments fail `when`" if j else "") + f" from {threads} threads against times {times}: {ok} returned normally and {bad} panicked; exactly {want_ok} must return and {k - want_ok + j} must panic")
     if len(out) < 4 or out[2] != "EXIT":
         return ("protocol", f"stdout {out}")
     dropline = out[3]
@@ -572,7 +608,7 @@ def model_conc(opts, times, threads, k, out, err):
     return None
 
 
-def _model_block(opts, times, calls, rc, out, err, unwinds, li, pi, panics, ex, last, teardown=False):
+def _model_block(opts, times, calls, rc, out, err, unwinds, li, pi, panics, ex, last, teardown=False, second=None):
     """one injector lifetime, starting at out[li] == "INSTALLED"; returns (verdict, li, pi)"""
     if li >= len(out) or out[li] != "INSTALLED":
         return ("install-failed", f"installation of the arm's fake failed: stdout {out[li:li+3]} stderr {err[:3]}"), li, pi
@@ -646,21 +682,36 @@ def _model_block(opts, times, calls, rc, out, err, unwinds, li, pi, panics, ex, 
                 return ("assign-not-before-returns", ctx + " -- assign must run before returns is evaluated"), li, pi
         elif value != 0:
             return ("unit-arm-returned-value", ctx), li, pi
+    # the fake from the second expansion of the arm (its own budget, its own counter)
+    second_unmet = False
+    if second is not None:
+        mm = re.match(r"SECOND ok=(\d+) panic=(\d+)", out[li] if li < len(out) else "")
+        if not mm:
+            return ("protocol", f"missing SECOND line; stdout tail {out[-3:]} stderr tail {err[-3:]}"), li, pi
+        li += 1
+        ok2, bad2 = int(mm.group(1)), int(mm.group(2))
+        want_ok2 = min(second, times) if opts["times"] else second
+        if ok2 != want_ok2 or bad2 != second - want_ok2:
+            return ("second-expansion-of-the-arm-shares-state", f"a fake from a second expansion of the same arm, installed on another function through the same injector, got {second} matching calls after the first fake had absorbed {count}: {ok2} returned and {bad2} panicked; with times {times if opts['times'] else None} exactly {want_ok2} must return and {second - want_ok2} must panic"), li, pi
+        pi += bad2
+        second_unmet = bool(opts["times"]) and second != times
     # exit
     if li >= len(out) or out[li] != "EXIT":
         return ("protocol", f"missing EXIT; stdout tail {out[-3:]} stderr tail {err[-3:]}"), li, pi
     li += 1
     dropline = out[li] if li < len(out) else ""
     # (no verdict is raised at scope exit while the thread is already unwinding)
-    want_exit_panic = opts["times"] and count != times and not teardown
+    want_exit_panic = opts["times"] and (count != times or second_unmet) and not teardown
     if want_exit_panic:
         if dropline != "DROP-PANIC":
             return ("exit-verification-missed", f"{count} matching calls against times {times}, but scope exit did not panic ({dropline!r})"), li, pi
         msg = panics[pi] if pi < len(panics) else ""
         pi += 1
         nums = re.findall(r"\d+", msg.split("##")[0])
-        if str(times) not in nums or str(count) not in nums:
-            return ("exit-message-lacks-numbers", f"exit panic {msg!r} does not name both {times} and {count}"), li, pi
+        names_first = count != times and str(times) in nums and str(count) in nums
+        names_second = second_unmet and str(times) in nums and str(second) in nums
+        if not (names_first or names_second):
+            return ("exit-message-lacks-numbers", f"exit panic {msg!r} does not name both {times} and {count}" + (f" (or {times} and {second} for the second fake)" if second_unmet else "")), li, pi
     else:
         if dropline != "DROPPED":
             return ("exit-verification-false-alarm", f"{count} matching calls, times {times if opts['times'] else None}: scope exit gave {dropline!r} {panics[pi:] }"), li, pi
@@ -675,7 +726,7 @@ def _model_block(opts, times, calls, rc, out, err, unwinds, li, pi, panics, ex, 
     return None, li + 2, pi
 
 
-def model_and_compare(opts, times, calls, rc, out, err, unwinds, more_blocks=(), teardown=False):
+def model_and_compare(opts, times, calls, rc, out, err, unwinds, more_blocks=(), teardown=False, second=None):
     """returns (None | (signature, message), classes exercised); blocks = consecutive lifetimes that
     evaluate the same fake! expression"""
     panics = [l[6:] for l in err if l.startswith("PANIC ")]
@@ -683,7 +734,7 @@ def model_and_compare(opts, times, calls, rc, out, err, unwinds, more_blocks=(),
     blocks = [(times, calls)] + list(more_blocks)
     li, pi = 0, 0
     for bi, (t, cs) in enumerate(blocks):
-        verdict, li, pi = _model_block(opts, t, cs, rc, out, err, unwinds, li, pi, panics, ex, bi + 1 == len(blocks), teardown=teardown)
+        verdict, li, pi = _model_block(opts, t, cs, rc, out, err, unwinds, li, pi, panics, ex, bi + 1 == len(blocks), teardown=teardown, second=second if bi == 0 else None)
         if verdict is not None:
             if bi > 0:
                 verdict = (verdict[0] + "/in-later-lifetime-of-same-site", f"lifetime {bi} of {len(blocks)} evaluating the same fake! expression: " + verdict[1])
@@ -775,8 +826,8 @@ def cmd_c08(out_path, prop="C08"):
 
         @seed(SEED * 1000 + m["idx"])
         @settings(max_examples=n_scripts, database=None, deadline=None, derandomize=False, suppress_health_check=list(HealthCheck), phases=[Phase.generate, Phase.shrink])
-        @given(blocks=st.lists(block, min_size=2 if multi else 1, max_size=3 if multi else 1), teardown=st.sampled_from([False, False, False, True]))
-        def prop_arm(blocks, teardown):
+        @given(blocks=st.lists(block, min_size=2 if multi else 1, max_size=3 if multi else 1), teardown=st.sampled_from([False, False, False, True]), second=st.sampled_from([None, None, None, 0, 1, 2, 3]))
+        def prop_arm(blocks, teardown, second):
             if not unwinds:
                 # a predicted panic aborts: keep at most one panicking call, as the last one of
                 # the last lifetime
@@ -799,8 +850,16 @@ def cmd_c08(out_path, prop="C08"):
                         break
                 blocks = kept
             (times, calls), more = blocks[0], blocks[1:]
-            rc, out, err = run_arm(exe, times, calls, more_blocks=more, teardown=teardown)
-            verdict, ex = model_and_compare(o, times, calls, rc, out, err, unwinds, more_blocks=more, teardown=teardown)
+            if second is not None and not unwinds:
+                # an over-budget call of the second fake would abort; so would nothing else: the
+                # first lifetime must not end in an abort either, or the SECOND line is never printed
+                second = min(second, times) if o["times"] else second
+                if any((o["when"] and not (a >= w)) for (a, w, k, r) in calls) or (o["times"] and sum(1 for (a, w, k, r) in calls if not (o["when"] and not (a >= w))) > times):
+                    second = None
+            rc, out, err = run_arm(exe, times, calls, more_blocks=more, teardown=teardown, second=second)
+            verdict, ex = model_and_compare(o, times, calls, rc, out, err, unwinds, more_blocks=more, teardown=teardown, second=second)
+            if second is not None:
+                rec.cls("second-expansion-of-the-arm-in-the-same-injector")
             rec.eval(lambda: {"arm": m["idx"], "line": m["line"], "options": label, "times": times, "calls": calls, "later_lifetimes": more, "from_tear_down_while_unwinding": teardown, "stdout_tail": out[-3:]})
             rec.cls(label)
             if teardown:
@@ -818,7 +877,7 @@ def cmd_c08(out_path, prop="C08"):
                 msg = rec.fail(f"{prop}/{verdict[0]}/{label}", f"arm {m['idx']} (macros.rs line {m['line']}, {label}), times {times}, script {calls}" + (f", then lifetimes {more} evaluating the same fake! expression" if more else "") + (" [the script ran from a destructor while the thread was unwinding]" if teardown else "") + f": {verdict[1]}")
                 if msg:
                     rec.frozen = True
-                    failure["case"] = {"arm": m["idx"], "line": m["line"], "options": label, "times": times, "calls": [list(c) for c in calls], "more": [[t, [list(c) for c in cs]] for (t, cs) in more], "teardown": teardown}
+                    failure["case"] = {"arm": m["idx"], "line": m["line"], "options": label, "times": times, "calls": [list(c) for c in calls], "more": [[t, [list(c) for c in cs]] for (t, cs) in more], "teardown": teardown, "second": second}
                     failure["msg"] = msg
                     raise AssertionError(msg)
 
@@ -836,22 +895,25 @@ def cmd_c08(out_path, prop="C08"):
 
             @seed(SEED * 1000 + 500 + m["idx"])
             @settings(max_examples=scale(16, 400), database=None, deadline=None, derandomize=False, suppress_health_check=list(HealthCheck), phases=[Phase.generate, Phase.shrink])
-            @given(times=st.sampled_from([1, 2, 3, 0, 5]), threads=st.integers(2, 8), extra=st.sampled_from([1, 2, 0, -1, 3]), delay=st.sampled_from([1500, 300, 0]))
-            def prop_conc(times, threads, extra, delay):
+            @given(times=st.sampled_from([1, 2, 3, 0, 5]), threads=st.integers(2, 8), extra=st.sampled_from([1, 2, 0, -1, 3]), delay=st.sampled_from([1500, 300, 0]), rejected=st.sampled_from([0, 0, 1, 2]))
+            def prop_conc(times, threads, extra, delay, rejected):
                 k = max(0, times + extra)
                 if not unwinds:
                     k = min(k, times)  # an over-budget call would abort the process
-                rc, out, err = run_arm_conc(exe, times, threads, k, delay)
-                verdict = model_conc(o, times, threads, k, out, err)
-                rec.eval(lambda: {"arm": m["idx"], "options": label, "concurrent": {"times": times, "threads": threads, "calls": k, "delay_us": delay}, "stdout": out[:4]})
-                rec.cls(f"concurrent/{label}")
+                # calls rejected by `when` arrive together with the matching ones (only where a
+                # rejection can unwind)
+                j = rejected if (o["when"] and unwinds) else 0
+                rc, out, err = run_arm_conc(exe, times, threads, k, delay, j=j)
+                verdict = model_conc(o, times, threads, k, out, err, j=j)
+                rec.eval(lambda: {"arm": m["idx"], "options": label, "concurrent": {"times": times, "threads": threads, "calls": k, "rejected_calls": j, "delay_us": delay}, "stdout": out[:4]})
+                rec.cls(f"concurrent/{label}" + ("/with-rejected-calls" if j else ""))
                 if k >= 2:
                     rec.nontriv([m["idx"], "conc", times, threads, k, delay])
                 if verdict is not None:
                     msg = rec.fail(f"{prop}/{verdict[0]}/{label}", f"arm {m['idx']} (macros.rs line {m['line']}, {label}): {verdict[1]}")
                     if msg:
                         rec.frozen = True
-                        cfail["case"] = {"arm": m["idx"], "line": m["line"], "options": label, "concurrent": [times, threads, k, delay]}
+                        cfail["case"] = {"arm": m["idx"], "line": m["line"], "options": label, "concurrent": [times, threads, k, delay, j]}
                         cfail["msg"] = msg
                         raise AssertionError(msg)
 
@@ -862,7 +924,12 @@ def cmd_c08(out_path, prop="C08"):
                 rec.violation(cfail["msg"].split("]")[0][1:], cfail["msg"], {"ArmCase": cfail["case"]})
             except Exception as e:  # noqa
                 rec.frozen = False
-                rec.inconclusive.append(f"arm {m['idx']} (concurrent): harness error {type(e).__name__}: {e}")
+                if "case" in cfail:
+                    # (a race does not fail on every run: Hypothesis calls that "flaky"; the run that
+                    # failed produced real output that contradicts the model, which is a verdict)
+                    rec.violation(cfail["msg"].split("]")[0][1:], cfail["msg"], {"ArmCase": cfail["case"]})
+                else:
+                    rec.inconclusive.append(f"arm {m['idx']} (concurrent): harness error {type(e).__name__}: {e}")
     rec.exhaustive_parts.append(f"arms: all {len(arms)} arms of macro_rules! fake in the working tree ({len(bins)} instantiated and compiled)")
     return rec.finish(out_path)
 
@@ -1051,11 +1118,12 @@ def cmd_replay(path):
         print("replay: arm compiles now; property holds on this case")
         return 0
     if case.get("concurrent"):
-        times, threads, k, delay = case["concurrent"]
+        times, threads, k, delay = case["concurrent"][:4]
+        j = case["concurrent"][4] if len(case["concurrent"]) > 4 else 0
         # a race may need several attempts to show again; one failing attempt is a reproduction
         for attempt in range(20):
-            rc, out, err = run_arm_conc(res[name]["exe"], times, threads, k, delay)
-            verdict = model_conc(opts, times, threads, k, out, err)
+            rc, out, err = run_arm_conc(res[name]["exe"], times, threads, k, delay, j=j)
+            verdict = model_conc(opts, times, threads, k, out, err, j=j)
             if verdict is not None:
                 print("replay:", verdict, f"(attempt {attempt + 1})")
                 print(f"VIOLATION property={prop} replay={path}")
@@ -1065,8 +1133,9 @@ def cmd_replay(path):
     calls = [tuple(c) for c in case["calls"]]
     more = [(t, [tuple(c) for c in cs]) for (t, cs) in case.get("more", [])]
     td = bool(case.get("teardown"))
-    rc, out, err = run_arm(res[name]["exe"], case["times"], calls, more_blocks=more, teardown=td)
-    verdict, _ = model_and_compare(opts, case["times"], calls, rc, out, err, "extern" not in opts["quals"], more_blocks=more, teardown=td)
+    sec = case.get("second")
+    rc, out, err = run_arm(res[name]["exe"], case["times"], calls, more_blocks=more, teardown=td, second=sec)
+    verdict, _ = model_and_compare(opts, case["times"], calls, rc, out, err, "extern" not in opts["quals"], more_blocks=more, teardown=td, second=sec)
     if verdict is None:
         print("replay: property holds on this case")
         return 0
